@@ -731,23 +731,40 @@ fn main() {
         "e2e" => {
             let scenarios = read_ndjson(&arg("--scenarios").expect("--scenarios"));
             let mut trace = Trace::create(&arg("--trace").expect("--trace"));
-            // all scenarios run concurrently: they mostly sleep
+            e2e::install_delay_subscriber();
+            // all scenarios run concurrently (they mostly sleep) - except the ones that hold the accept thread through the
+            // process-wide tracing subscriber: those run alone, afterwards
             let handles: Vec<_> = scenarios
                 .iter()
                 .cloned()
                 .map(|sc| {
-                    std::thread::spawn(move || {
+                    if sc.get("accept_delay_ms").is_some() {
+                        return None;
+                    }
+                    Some(std::thread::spawn(move || {
                         if sc.get("signal").is_some() {
                             e2e::run_signal_scenario(&sc)
                         } else {
                             e2e::run_scenario(&sc)
                         }
-                    })
+                    }))
                 })
                 .collect();
             let mut nev = 0usize;
             for (run, (h, sc)) in handles.into_iter().zip(scenarios.iter()).enumerate() {
-                let events = h.join().unwrap_or_else(|_| vec![json!({"e": "DriverPanic"}), json!({"e": "End"})]);
+                let events = match h {
+                    Some(h) => h.join().unwrap_or_else(|_| vec![json!({"e": "DriverPanic"}), json!({"e": "End"})]),
+                    None => {
+                        let ms = sc["accept_delay_ms"].as_u64().unwrap_or(0);
+                        e2e::ACCEPT_RESUME_DELAY_MS.store(ms, std::sync::atomic::Ordering::SeqCst);
+                        let sc2 = sc.clone();
+                        let ev = std::thread::spawn(move || e2e::run_scenario(&sc2))
+                            .join()
+                            .unwrap_or_else(|_| vec![json!({"e": "DriverPanic"}), json!({"e": "End"})]);
+                        e2e::ACCEPT_RESUME_DELAY_MS.store(0, std::sync::atomic::Ordering::SeqCst);
+                        ev
+                    }
+                };
                 trace.emit(&json!({"ev": "reset", "run": run, "scenario": sc}));
                 for rec in project_e2e(run, sc, &events) {
                     trace.emit(&rec);
@@ -831,11 +848,18 @@ fn project_e2e(run: usize, sc: &Value, events: &[Value]) -> Vec<Value> {
     let mut late_served = false;
     // connections whose service future was dropped unfinished during a graceful stop before shutdown_timeout
     let mut killed_early: Vec<u64> = vec![];
+    // a connection attempt made after the Server future resolved was accepted by the kernel: the server still listens
+    let mut late_connected = false;
     let mut out = vec![];
     for (k, e) in events.iter().enumerate() {
         let name = e["e"].as_str().unwrap_or("");
         let ms = e["ms"].as_i64().unwrap_or(0);
         match name {
+            "LateConnect" => {
+                if e["connected"].as_bool().unwrap_or(false) {
+                    late_connected = true;
+                }
+            }
             "ConnKilled" => {
                 if stop_ms >= 0 && graceful && ms - stop_ms < timeout_ms as i64 - 100 {
                     killed_early.push(e["c"].as_u64().unwrap_or(0));
@@ -881,7 +905,7 @@ fn project_e2e(run: usize, sc: &Value, events: &[Value]) -> Vec<Value> {
             "sinceStop": if stop_ms >= 0 { ms - stop_ms } else { -1 }, "timeoutMs": timeout_ms,
             "stops": stops, "resolved": resolved, "dropped": dropped,
             "serverDone": server_done, "doneSinceStop": if server_done && stop_ms >= 0 { server_done_ms - stop_ms } else { -1 },
-            "lateServed": late_served, "heldForever": held_forever, "killedEarly": killed_early, "raw": e}));
+            "lateServed": late_served, "heldForever": held_forever, "killedEarly": killed_early, "lateConnected": late_connected, "raw": e}));
     }
     out
 }
